@@ -306,7 +306,9 @@ func ruleR08b(c *Check, w *wrapperInfo, rule string) {
 		}
 		// a fill inside a helper: Get learns of its failure (and of a failed fetch)
 		if g != fn {
-			isThis := func(x ssa.CallInstruction) bool { return x == s || set[x] == 0 && containsCall(remGet, x) && x.Parent() == g }
+			isThis := func(x ssa.CallInstruction) bool {
+				return x == s || set[x] == 0 && containsCall(remGet, x) && x.Parent() == g
+			}
 			lifted, leaks := liftedSites(c, fn, isThis, 0)
 			if len(lifted) == 0 || len(leaks) > 0 {
 				okFill = false
